@@ -19,11 +19,11 @@ RULE = (
     "swap-adjacent / replace by a token of another class, 1-3 edits); (c) syntactically valid but "
     "out-of-domain literals (float ids, string/float/negative enum values, unknown or ill-arity "
     "parameters, empty enum, u0/u99, huge numbers, wrong version); (d) random ASCII / unicode / control "
-    "text and the empty string; (e) type / value nesting to depth 5000 (far beyond the interpreter's recursion limit); (f) the same faults inside imported "
+    "text and the empty string, strings with long backslash runs (terminated or not); (e) type / value nesting to depth 5000 (far beyond the interpreter's recursion limit); (f) the same faults inside imported "
     "module files.  Monitors: exception escape (any BaseException), result type (Ok/Err), "
     "Logger.error(err) must render, every [file.fcp:line] citation must name a registered source and "
     "an existing line and the quoted source text must be that line; every third input is parsed and "
-    "rendered through one long-lived shared Logger (history of parses); CPU budget 30 s per input (twice in isolation => violation).  distinct = "
+    "rendered through one long-lived shared Logger (history of parses); CPU budget 20 s per input (twice in isolation => violation).  distinct = "
     "(input class, outcome, normalised first error message)."
 )
 ASSUMPTIONS = [
@@ -88,14 +88,14 @@ def judge(run, kind, parse, text, sources_hint=None):
         case["files"] = sources_hint
     for attempt in (1, 2):
         signal.signal(signal.SIGVTALRM, _alarm)
-        signal.setitimer(signal.ITIMER_VIRTUAL, 30.0)
+        signal.setitimer(signal.ITIMER_VIRTUAL, 20.0)
         t0 = time.process_time()
         try:
             res, lg = parse()
             break
         except CpuAlarm:
             if attempt == 2:
-                run.violation("parsing a %d character input did not finish within 30 s CPU (twice)" % len(text), case)
+                run.violation("parsing a %d character input did not finish within 20 s CPU (twice)" % len(text), case)
                 return
         except KeyboardInterrupt:
             raise
@@ -275,6 +275,18 @@ def run(run):
                     judge(run, "deep", string_parse(t), t)
                 t = 'version: "3"\nimpl p for A { k: ' + "[" * depth + "1" + "]" * depth + ", }"
                 judge(run, "deep", string_parse(t), t)
+            for nbs in (10, 25, 40, 60, 200):
+                bs = "\\" * nbs
+                for t in ['version: "3"\nstruct A { a @0: u8 | unit("' + bs,
+                          'version: "3"\nstruct A { a @0: u8 | unit("x' + bs + 'y',
+                          'version: "3"\nimpl p for A { k: "' + bs + ', }',
+                          'version: "3"\nstruct A { a @0: u8 | unit("' + bs + '"), }',
+                          'version: "' + bs]:
+                    judge(run, "backslashes", string_parse(t), t)
+                    if run.nviol:
+                        break
+                if run.nviol:
+                    break
             for t in ["", " ", "\n", "\x00", "﻿", "//", "/*", "/* */", "version", "version:", 'version: "3', 'version: "3"', 'version: "3"\n' * 3]:
                 judge(run, "tiny", string_parse(t), t)
         nrand = run.pick(800, 20000)
